@@ -95,7 +95,9 @@ func cmdRun(args []string) int {
 	cfg.Trace = *trace
 	cfg.Sites = *sites
 	cfg.SolverLogDir = *logdir
-	addRedirects(&cfg)
+	if *pkg != "lexh" {
+		addRedirects(&cfg)
+	}
 	eng, err := interp.NewEngine(ld.prog, cfg)
 	if err != nil {
 		fmt.Fprintln(os.Stderr, "engine:", err)
